@@ -220,7 +220,7 @@ func c03Configs(c *Ctx) []c03Cfg {
 	caps := []int{1, 2, 3}
 	kinds := []string{"LIST", "AND", "BASIC"}
 	if !c.Quick() {
-		caps = []int{1, 2, 3, 4, 5, 6}
+		caps = []int{1, 2, 3, 4, 5}
 		kinds = kindNames
 	}
 	for _, k := range kinds {
